@@ -19,6 +19,9 @@ def run(tier, seed):
             ks = rng.sample(ks, min(len(ks), 6))
         for k in ks:
             recipes.append({"fn": "typing", "cls": cspec, "seq": s, "twin": {"by": "rot", "k": k, "via": "api"}})
+        # the same plasmid in a plain SeqRecord (circular by annotation, or by default): origin at the marked places
+        for k in rng.sample(ks, min(len(ks), 2 if q else 8)):
+            recipes.append({"fn": "typing", "cls": cspec, "seq": s, "plain": rng.choice(["circular", "upper", "absent"]), "twin": {"by": "rot", "k": k}})
         # records with several matches / mutated ones are judged too (precondition evaluated by the spec)
         s2 = gen.mutate(s, rng)
         recipes.append({"fn": "typing", "cls": cspec, "seq": s2, "twin": {"by": "rot", "k": rng.randrange(1, n), "via": "api"}})
